@@ -117,7 +117,10 @@ def run(ck):
     cover_file = os.path.join(ck.work, "cover.jsonl")
 
     def cover():
-        consts = {"MaxPeer": 2 if quick else 3, "MaxCalls": 3 if quick else 4, "Partial": "TRUE", "BUG_SingleRecord": "FALSE"}
+        consts = {"MaxPeer": 3, "MaxCalls": 3 if quick else 4, "Partial": "TRUE", "BUG_SingleRecord": "FALSE"}
+        if not quick:
+            consts["PeerKinds"] = '{"data", "ping", "pong", "closeValid", "viol", "eof"}'
+            consts["CallApis"] = '{"AsyncNextFrame", "AsyncNextMessage", "AsyncWrite", "AsyncWriteFrame", "AsyncFlush", "AsyncClose"}'
         cfg = vlib.cfg_with(sw, "WsAsyncImpl_mc.cfg", consts)
         r = vlib.tlc(sw, SPECMOD, cfg, workers=1, timeout=1500)
         if not r.ok:
@@ -132,7 +135,8 @@ def run(ck):
         return n
 
     def count():
-        consts = {"MaxPeer": 3, "MaxCalls": 4 if quick else 5, "Partial": "TRUE", "BUG_SingleRecord": "FALSE"}
+        consts = {"MaxPeer": 3, "MaxCalls": 4 if quick else 5, "Partial": "TRUE", "BUG_SingleRecord": "FALSE",
+                  "PeerKinds": '{"data", "ping", "closeValid"}' if quick else '{"data", "ping", "pong", "closeValid", "viol", "eof"}'}
         cfg = vlib.cfg_with(sw, "WsAsyncImpl_count.cfg", consts)
         r = vlib.tlc(sw, SPECMOD, cfg, workers=3 if quick else max(4, vlib.NCPU - 6), timeout=1500)
         if not r.ok:
